@@ -141,17 +141,25 @@ Definition clog2 (n : Z) : Z := Z.log2_up n.
 Definition np_bitlen_half (v : Z) : Z := if v =? 0 then -1 else bitlen v.
 
 (* ---------- elements of Python-object arrays: ints and floats ---------- *)
-Inductive num := NI (z : Z) | NF (x : f64).
+(* NR: a fractions.Fraction whose denominator is a power of two (the only rationals the code
+   creates: utils.scale_raw / set_val multiply integers by Fraction(1, 1 << k)) *)
+Inductive num := NI (z : Z) | NF (x : f64) | NR (q : dy).
 
-Definition num_to_f64 (a : num) : f64 := match a with NI z => f64_of_Z z | NF x => x end.
+Definition num_to_f64 (a : num) : f64 := match a with NI z => f64_of_Z z | NF x => x | NR q => f64_of_dy q end.
+(* exact operand of a rational operation: ints and rationals, not floats *)
+Definition num_exact (a : num) : option dy :=
+  match a with NI z => Some (dy_of_Z z) | NR q => Some q | NF _ => None end.
 Definition num_mul (a b : num) : num :=
   match a, b with
   | NI x, NI y => NI (x * y)
-  | _, _ => NF (f64_mul (num_to_f64 a) (num_to_f64 b))
+  | NF _, _ | _, NF _ => NF (f64_mul (num_to_f64 a) (num_to_f64 b))
+  | _, _ => match num_exact a, num_exact b with
+            | Some u, Some v => NR (dy_mul u v)
+            | _, _ => NF (f64_mul (num_to_f64 a) (num_to_f64 b)) end
   end.
-(* Python compares int with float exactly *)
+(* Python compares int, float and Fraction exactly *)
 Definition num_dy (a : num) : option dy :=
-  match a with NI z => Some (dy_of_Z z) | NF x => f64_to_dy x end.
+  match a with NI z => Some (dy_of_Z z) | NF x => f64_to_dy x | NR q => Some q end.
 Definition num_ltb (a b : num) : bool :=
   match a, b with
   | NI x, NI y => x <? y
@@ -163,7 +171,7 @@ Definition num_ltb (a b : num) : bool :=
   end.
 (* int(x) *)
 Definition num_int (a : num) : option Z :=
-  match a with NI z => Some z | NF x => f64_trunc_Z x end.
+  match a with NI z => Some z | NF x => f64_trunc_Z x | NR q => Some (round_dy Trunc q) end.
 
 (* ---------- outcomes ---------- *)
 Inductive exc := OverflowError | ValueError | TypeError | ZeroDivisionError | OtherError.
